@@ -176,7 +176,6 @@ func (c Cond) RelOn(a, b string) (OrdSet, bool) {
 	return 0, false
 }
 
-
 var paramLike = regexp.MustCompile(`^c*(recv|p[0-9]+)$`)
 var identLike = regexp.MustCompile(`^[A-Za-z_][A-Za-z0-9_/]*$`)
 
